@@ -161,7 +161,7 @@ class Prover:
         return r, m
 
     # -- obligations ---------------------------------------------------------------------
-    def prove(self, name, viol, inputs=None, replay=None, quantities=None, canary=None, sample=None):
+    def prove(self, name, viol, inputs=None, replay=None, quantities=None, canary=None, sample=None, timeout_s=None):
         """viol: z3 Bool (or SymBool) that is satisfiable iff the property is violated.
         inputs: {name: z3 var} extracted from a model for replay.
         replay(values) -> detail dict if the violation reproduces on the real, unwrapped code,
@@ -176,13 +176,24 @@ class Prover:
         if len(self.res['samples']) < 2:
             self.res['samples'].append({'config': self.config, 'obligation': name,
                                         'query': (sample or viol.sexpr())[:400]})
+        if timeout_s:
+            self.solver.set('timeout', int(timeout_s * 1000))
+        try:
+            verdict = self._prove(name, viol, inputs, replay, quantities)
+        finally:
+            if timeout_s:
+                self.solver.set('timeout', int(self.timeout * 1000))
         if canary is not None:
             self.res['canaries'] += 1
             r, m = self._solve([core.as_z3_bool(canary)])
             if r == z3.sat:
                 self.res['canaries_ok'] += 1
-            elif r == z3.unsat:
+            elif r == z3.unsat and verdict is True:
+                # the obligation was discharged although its witness twin is unsatisfiable: vacuous
                 self.res['errors'].append('canary unsat (vacuous harness?) at %s/%s' % (self.config, name))
+        return verdict
+
+    def _prove(self, name, viol, inputs, replay, quantities):
         extra = []
         for _round in range(8):
             r, m = self._solve([viol] + extra)
